@@ -40,12 +40,21 @@ pub fn streams() -> Vec<(&'static str, Vec<u8>, Vec<u8>)> {
     let mut resp2 = h2::settings(&[]);
     resp2.extend(h2::headers_frames(1, &b, &Framing::default()));
     resp2.extend(h2::frame(0, 1, 1, b"body"));
-    vec![("http1", req1, resp1), ("http2", req2, resp2)]
+    // bare-LF line ends with CRLF blank lines inside the bodies, and CRLF line ends with LF blank lines inside the bodies:
+    // the head ends at the FIRST blank line of either style
+    let req3 = b"POST /submit HTTP/1.1\nHost: lf.example\nUser-Agent: curl/8.0\nContent-Length: 14\n\nab\r\n\r\ncd\r\n\r\nef".to_vec();
+    let resp3 = b"HTTP/1.1 200 OK\nServer: Apache\nContent-Type: text/plain\n\nline\r\n\r\nX: y\r\n\r\n".to_vec();
+    let req4 = b"POST /submit HTTP/1.1\r\nHost: crlf.example\r\nUser-Agent: curl/8.0\r\nContent-Length: 9\r\n\r\nab\n\ncd\n\nX".to_vec();
+    let resp4 = b"HTTP/1.1 404 Not Found\r\nServer: nginx/1.2.3\r\nContent-Type: text/html\r\n\r\nline\n\nX: y\n\n".to_vec();
+    vec![("http1", req1, resp1), ("http2", req2, resp2), ("http1-lf-head-crlf-blank-lines-in-body", req3, resp3), ("http1-crlf-head-lf-blank-lines-in-body", req4, resp4)]
 }
 /// number of bytes of the direction's stream that must be contiguous from the start for the head to be complete
 fn head_len(stream: usize, client: bool, bytes: &[u8]) -> usize {
-    if stream == 0 {
-        bytes.windows(4).position(|w| w == b"\r\n\r\n").map(|i| i + 4).unwrap_or(bytes.len())
+    if stream != 1 {
+        // HTTP/1: the first blank line of either style ends the head
+        let crlf = bytes.windows(4).position(|w| w == b"\r\n\r\n").map(|i| i + 4).unwrap_or(bytes.len());
+        let lf = bytes.windows(2).position(|w| w == b"\n\n").map(|i| i + 2).unwrap_or(bytes.len());
+        crlf.min(lf)
     } else {
         // HTTP/2: up to the end of the HEADERS frame
         let mut off = if client { h2::PREFACE.len() } else { 0 };
@@ -266,18 +275,33 @@ pub fn run(thorough: bool) -> Outcome {
         .iter()
         .enumerate()
         .map(|(si, (_n, req, resp))| {
-            let h = Hist { stream: si, client_isn: 1000, server_isn: 5000, segs: vec![(true, 0, req.len()), (false, 0, resp.len())] };
+            // reference: each direction cut exactly behind its head, in order (what the head alone yields); the undivided
+            // stream is one of the histories compared with it
+            let (hc, hs_) = (head_len(si, true, req), head_len(si, false, resp));
+            let mut segs = vec![(true, 0, hc)];
+            if hc < req.len() {
+                segs.push((true, hc, req.len() - hc));
+            }
+            segs.push((false, 0, hs_));
+            if hs_ < resp.len() {
+                segs.push((false, hs_, resp.len() - hs_));
+            }
+            let h = Hist { stream: si, client_isn: 1000, server_isn: 5000, segs };
             let syn = pkt::build(&Spec { src: 1, sport: 40000, dst: 2, dport: 80, flags: SYN, seq: 1000, ..Spec::default() });
             let mut a = HttpSeq::new(None, 8);
             a.feed(&syn);
-            let q = summary(&a.feed(&frame_for(&h, req, resp, &h.segs[0]))).0;
-            let p = summary(&a.feed(&frame_for(&h, req, resp, &h.segs[1]))).1;
+            let (mut q, mut p) = (None, None);
+            for sg in &h.segs {
+                let (x, y) = summary(&a.feed(&frame_for(&h, req, resp, sg)));
+                q = q.or(x);
+                p = p.or(y);
+            }
             (q, p)
         })
         .collect();
     for (i, rf) in refs.iter().enumerate() {
         if rf.0.is_none() || rf.1.is_none() {
-            pre.machinery_error(format!("stream {} is not reported even in one segment per direction", ss[i].0));
+            pre.machinery_error(format!("stream {} is not reported even when each direction is cut exactly behind its head", ss[i].0));
         }
         pre.sample(|| json!({"stream": ss[i].0, "request": rf.0, "response": rf.1}));
     }
@@ -291,7 +315,7 @@ pub fn run(thorough: bool) -> Outcome {
     });
     Outcome {
         report: pre.merge(rep),
-        rule: "HTTP/1 and HTTP/2 exchanges after SYN/SYN+ACK: every 1-, 2- and 3-partition (3-partitions on a stride in quick) of each direction x 9 initial sequence numbers (0, 1, 2^31, 2^31-10, 2^32-1, 2^32-2, 2^32-len, 2^32-len/2, 0x12345678) x every arrival permutation; both directions in two pieces each in all 24 interleavings (with and without wrap); four request pieces in all 24 orders; distinct = distinct per-packet report patterns".into(),
+        rule: "HTTP/1 (CRLF heads; bare-LF heads whose bodies contain CRLF blank lines; CRLF heads whose bodies contain LF blank lines) and HTTP/2 exchanges after SYN/SYN+ACK, reference = each direction cut exactly behind its head: every 1-, 2- and 3-partition (3-partitions on a stride in quick) of each direction x 9 initial sequence numbers (0, 1, 2^31, 2^31-10, 2^32-1, 2^32-2, 2^32-len, 2^32-len/2, 0x12345678) x every arrival permutation; both directions in two pieces each in all 24 interleavings (with and without wrap); four request pieces in all 24 orders; distinct = distinct per-packet report patterns".into(),
         exhaustive: true,
         bounds: json!({"histories": hs.len(), "streams": ss.iter().map(|s| (s.0, s.1.len(), s.2.len())).collect::<Vec<_>>()}),
     }
